@@ -20,6 +20,8 @@
      Cancel s       the context of a parked sender's call is cancelled (no effect in this code)
      Fault          the sink's next Write will fail
      Deploy         HandleDeploy on the live operator while no call is outstanding
+     HandleFail s   like Handle for a barrier, but the user handler fails its next call: if that is the flush in front
+                    of the cut, the pending entries are lost, the barrier's sender gets the error, no checkpoint is cut
      TimeoutFail    like Timeout, but the user handler fails on that flush: the batch is lost and the operator stops
    handleCheckpointBarrier holds o.mu for its whole run and alignSender runs under o.mu.RLock, so a
    Gate never interleaves inside a barrier's Handle; the other handlers do not touch o.checkpoint. *)
@@ -174,7 +176,19 @@ Definition with_mode (x : st) (s : nat) (m : mode) : st :=
   mkSt (set_nth s m (modes x)) (sent x) (ckpt x) (done x) (dt x).
 
 (* the closure the event loop runs for sender s; o = (s, index of the item) *)
-Definition handle_item (c : cfg) (x : st) (s : nat) (it : item) : st :=
+(* Flush took the batch out and the user handler failed: the entries are lost *)
+Definition drop_batch (x : dat) : dat :=
+  mkDat [] (btoken x + 1) None (inflight x) (wms x) (wm x) (timers x) (applied x) (log x) (active x) (sinkfault x).
+
+(* The flush in front of db.Checkpoint failed (handler or sink): handleCheckpointBarrier returned the error with
+   every barrier registered and no checkpoint cut. The assembly is being torn down (the barrier's sender got the
+   error); until the redeploy, which clears the slot, nothing else of this operator is followed. *)
+Definition failed (x : st) : bool := match ckpt x with Some (_, []) => true | _ => false end.
+Definition running (x : st) : bool := negb (stopped (dt x)) && negb (failed x).
+
+(* hf: the user handler fails its next ProcessEventBatch call if that call comes during this closure
+   (only scheduled for barriers: the flush in front of the cut) *)
+Definition handle_item (c : cfg) (hf : bool) (x : st) (s : nat) (it : item) : st :=
   let o := (s, length (nth s (sent x) [])) in
   let sent' := set_nth s (nth s (sent x) [] ++ [it]) (sent x) in
   let modes' := set_nth s Idle (modes x) in
@@ -198,35 +212,51 @@ Definition handle_item (c : cfg) (x : st) (s : nat) (it : item) : st :=
       else
         let missing' := remove_nat s missing in
         match missing' with
-        | [] =>  (* hasAllBarriers: flush pending batch, checkpoint, report, clear *)
-            let d1 := flush None (push_log (LAct o it true) (dt x)) in
-            mkSt modes' sent' None (done x + 1) (push_log (LCkpt cur (applied d1, timers d1)) d1)
+        | [] =>  (* hasAllBarriers: flush pending batch; if that fails return its error (no checkpoint);
+                    otherwise checkpoint, report, clear *)
+            let d0 := push_log (LAct o it true) (dt x) in
+            if hf && match batch d0 with [] => false | _ :: _ => true end then
+              mkSt modes' sent' (Some (cur, [])) (done x) (drop_batch d0)
+            else
+              let d1 := flush None d0 in
+              if errored d0 d1 then mkSt modes' sent' (Some (cur, [])) (done x) d1   (* the sink failed: state applied, no cut *)
+              else mkSt modes' sent' None (done x + 1) (push_log (LCkpt cur (applied d1, timers d1)) d1)
         | _ :: _ =>
             mkSt modes' sent' (Some (cur, missing')) (done x) (push_log (LAct o it true) (dt x))
         end
   end.
 
 Inductive action := Gate (s : nat) (it : item) | Wake (s : nat) | Handle (s : nat) | TimerFire | Timeout | Cancel (s : nat)
-  | Fault | Deploy | TimeoutFail.
+  | Fault | Deploy | TimeoutFail | HandleFail (s : nat).
 
 Definition set_d (x : st) (y : dat) : st := mkSt (modes x) (sent x) (ckpt x) (done x) y.
 
 Definition step (c : cfg) (x : st) (a : action) : option st :=
   match a with
   | Gate s it =>
+      if failed x then None else
       match nth_error (modes x) s with
       | Some Idle => Some (with_mode x s (if should_park x s then Parked (done x) it else Passed it))
       | _ => None
       end
   | Wake s =>
+      if failed x then None else
       match nth_error (modes x) s with
       | Some (Parked g it) => if g <? done x then Some (with_mode x s (Passed it)) else None
       | _ => None
       end
   | Handle s =>
       (* after the last active runner's SourceComplete the operator has stopped: nothing is handled any more *)
+      if failed x then None else
       match nth_error (modes x) s, active (dt x) with
-      | Some (Passed it), _ :: _ => Some (handle_item c x s it)
+      | Some (Passed it), _ :: _ => Some (handle_item c false x s it)
+      | _, _ => None
+      end
+  | HandleFail s =>
+      (* the closure of a barrier runs while the user handler fails its next call *)
+      if failed x then None else
+      match nth_error (modes x) s, active (dt x) with
+      | Some (Passed (IBar cid)), _ :: _ => Some (handle_item c true x s (IBar cid))
       | _, _ => None
       end
   | Cancel s =>
@@ -264,7 +294,7 @@ Definition step (c : cfg) (x : st) (a : action) : option st :=
          RETURNS: the operator stops (cancel(), Start returns). Represented by active = [] (see stopped): nothing
          is handled, flushed, checkpointed or redeployed any more. A stale token or an empty batch makes no
          handler call, so nothing fails. *)
-      if sinkfault (dt x) || stopped (dt x) then None else
+      if sinkfault (dt x) || stopped (dt x) || failed x then None else
       match inflight (dt x) with
       | t :: r => let y := dt x in
           match batch y with
@@ -279,7 +309,7 @@ Definition step (c : cfg) (x : st) (a : action) : option st :=
   | Timeout =>
       (* with an armed sink fault the time-out flush would fail and processEvents would return the error, which
          stops the operator: not part of the schedules considered (a failing HANDLER on that flush is TimeoutFail) *)
-      if sinkfault (dt x) || stopped (dt x) then None else
+      if sinkfault (dt x) || stopped (dt x) || failed x then None else
       match inflight (dt x) with
       | t :: r => let y := dt x in
           Some (set_d x (flush (Some t) (mkDat (batch y) (btoken y) (armed y) r (wms y) (wm y) (timers y) (applied y) (log y) (active y) (sinkfault y))))
